@@ -1,3 +1,371 @@
 package props
 
-func childMain(planPath string) int { return 0 }
+import (
+	"bytes"
+	"crypto/rand"
+	"encoding/json"
+	"errors"
+	"fmt"
+	"io"
+	"os"
+	"os/exec"
+	"path/filepath"
+	"runtime"
+	"strings"
+	"sync"
+	"time"
+
+	bip39 "github.com/islishude/bip39"
+)
+
+// ---- plans: what a fresh child process executes ------------------------------
+
+type op struct {
+	Kind     string `json:"kind"` // encode | new | check | valid | seed | string
+	Lang     int64  `json:"lang"`
+	Entropy  hexb   `json:"entropy,omitempty"`
+	ExtraCap int    `json:"extra_cap,omitempty"` // spare capacity behind the entropy slice
+	N        int64  `json:"n,omitempty"`
+	Text     text   `json:"text,omitempty"`
+	Pass     text   `json:"pass,omitempty"`
+	// Source, for kind "new" in single-goroutine plans: bytes served by a source
+	// installed through the hook for this call only. Empty = default source.
+	Source hexb `json:"source,omitempty"`
+	Yield  int  `json:"yield,omitempty"` // runtime.Gosched calls before the op
+	Spin   int  `json:"spin,omitempty"`  // busy iterations before the op
+}
+
+type phase struct {
+	Goroutines [][]op `json:"goroutines"`
+}
+
+type plan struct {
+	GOMAXPROCS int     `json:"gomaxprocs,omitempty"`
+	Phases     []phase `json:"phases"`
+	Solo       bool    `json:"solo,omitempty"`  // re-run every op alone at the end
+	Probe      bool    `json:"probe,omitempty"` // finally swap the source and report what was installed
+	// TeeNew: after the probe, run these NewMnemonic calls with a recording tee around
+	// the previously installed source (C07: output is a function of that source's bytes only).
+	TeeNew []op `json:"tee_new,omitempty"`
+}
+
+type obs struct {
+	Str       text   `json:"str,omitempty"`
+	Bytes     hexb   `json:"bytes,omitempty"`
+	Bool      bool   `json:"bool,omitempty"`
+	Err       string `json:"err,omitempty"` // "", ErrWordLen, ErrEntropyLen, ErrChecksumIncorrect, other
+	ErrMsg    text   `json:"err_msg,omitempty"`
+	Panic     string `json:"panic,omitempty"`
+	Mutated   bool   `json:"mutated,omitempty"` // the entropy's backing array changed during the call
+	TeeBytes  hexb   `json:"tee_bytes,omitempty"`
+	laterCopy []byte
+	live      []byte
+}
+
+func (o obs) key() string {
+	return fmt.Sprintf("%q|%x|%v|%s|%q|%s|%v", string(o.Str), []byte(o.Bytes), o.Bool, o.Err, string(o.ErrMsg), o.Panic, o.Mutated)
+}
+
+type report struct {
+	Results       [][][]obs `json:"results"` // phase, goroutine, op
+	Solo          [][][]obs `json:"solo,omitempty"`
+	LaterMutated  []string  `json:"later_mutated,omitempty"` // results or inputs that changed after the call returned
+	PrevIsDefault bool      `json:"prev_is_crypto_rand_reader"`
+	PrevType      string    `json:"prev_type,omitempty"`
+	Tee           []obs     `json:"tee,omitempty"`
+}
+
+func classifyErr(err error) (string, string) {
+	switch {
+	case err == nil:
+		return "", ""
+	case errors.Is(err, bip39.ErrWordLen):
+		return "ErrWordLen", err.Error()
+	case errors.Is(err, bip39.ErrEntropyLen):
+		return "ErrEntropyLen", err.Error()
+	case errors.Is(err, bip39.ErrChecksumIncorrect):
+		return "ErrChecksumIncorrect", err.Error()
+	}
+	return "other", err.Error()
+}
+
+type liveBuf struct {
+	name string
+	live []byte // full backing array view
+	snap []byte
+}
+
+type teeReader struct {
+	r   io.Reader
+	buf bytes.Buffer
+}
+
+func (t *teeReader) Read(p []byte) (int, error) {
+	n, err := t.r.Read(p)
+	t.buf.Write(p[:n])
+	return n, err
+}
+
+// execOp runs one op against the implementation; watch collects caller-owned
+// buffers to re-check at the end of the history.
+func execOp(o *op, watch *[]liveBuf, name string) obs {
+	for i := 0; i < o.Yield; i++ {
+		runtime.Gosched()
+	}
+	x := 0
+	for i := 0; i < o.Spin; i++ {
+		x += i * i
+	}
+	_ = x
+	var r obs
+	lang := bip39.Language(o.Lang)
+	perr := safely(func() {
+		switch o.Kind {
+		case "encode":
+			var ent []byte
+			if o.Entropy != nil {
+				back := make([]byte, len(o.Entropy)+o.ExtraCap)
+				for i := range back {
+					back[i] = 0xc3
+				}
+				copy(back, o.Entropy)
+				ent = back[:len(o.Entropy)]
+				snap := append([]byte(nil), back...)
+				defer func() {
+					if !bytes.Equal(back, snap) {
+						r.Mutated = true
+					}
+					if watch != nil {
+						*watch = append(*watch, liveBuf{name: name + " entropy", live: back, snap: snap})
+					}
+				}()
+			}
+			s, err := bip39.NewMnemonicByEntropy(ent, lang)
+			r.Str = text(s)
+			r.Err, r.ErrMsg = classifyErr2(err)
+		case "new":
+			var prev io.Reader
+			if len(o.Source) > 0 {
+				prev = bip39.VerifSwapRandSource(bytes.NewReader(o.Source))
+			}
+			s, err := bip39.NewMnemonic(int(o.N), lang)
+			if len(o.Source) > 0 {
+				bip39.VerifSwapRandSource(prev)
+			}
+			r.Str = text(s)
+			r.Err, r.ErrMsg = classifyErr2(err)
+		case "check":
+			err := bip39.CheckMnemonic(string(o.Text), lang)
+			r.Err, r.ErrMsg = classifyErr2(err)
+		case "valid":
+			r.Bool = bip39.IsMnemonicValid(string(o.Text), lang)
+		case "seed":
+			b := bip39.MnemonicToSeed(string(o.Text), string(o.Pass))
+			r.Bytes = append([]byte(nil), b...)
+			if watch != nil {
+				*watch = append(*watch, liveBuf{name: name + " returned seed", live: b[:cap(b)], snap: append([]byte(nil), b[:cap(b)]...)})
+			}
+		case "string":
+			r.Str = text(lang.String())
+		default:
+			panic("verif child: unknown op kind " + o.Kind)
+		}
+	})
+	if perr != nil {
+		r.Panic = perr.Error()
+	}
+	return r
+}
+
+func classifyErr2(err error) (string, text) {
+	a, b := classifyErr(err)
+	return a, text(b)
+}
+
+// childMain executes the plan named by VERIF_PLAN and writes <plan>.out.
+func childMain(planPath string) int {
+	b, err := os.ReadFile(planPath)
+	if err != nil {
+		fmt.Fprintln(os.Stderr, "verif child:", err)
+		return 3
+	}
+	var p plan
+	if err := json.Unmarshal(b, &p); err != nil {
+		fmt.Fprintln(os.Stderr, "verif child:", err)
+		return 3
+	}
+	if p.GOMAXPROCS > 0 {
+		runtime.GOMAXPROCS(p.GOMAXPROCS)
+	}
+	var rep report
+	var watch []liveBuf
+	var watchMu sync.Mutex
+	for pi := range p.Phases {
+		ph := &p.Phases[pi]
+		res := make([][]obs, len(ph.Goroutines))
+		if len(ph.Goroutines) == 1 {
+			res[0] = make([]obs, len(ph.Goroutines[0]))
+			for oi := range ph.Goroutines[0] {
+				res[0][oi] = execOp(&ph.Goroutines[0][oi], &watch, fmt.Sprintf("phase %d op %d", pi, oi))
+			}
+		} else {
+			start := make(chan struct{})
+			var wg sync.WaitGroup
+			for gi := range ph.Goroutines {
+				res[gi] = make([]obs, len(ph.Goroutines[gi]))
+				wg.Add(1)
+				go func(gi int) {
+					defer wg.Done()
+					var local []liveBuf
+					<-start
+					for oi := range ph.Goroutines[gi] {
+						res[gi][oi] = execOp(&ph.Goroutines[gi][oi], &local, fmt.Sprintf("phase %d goroutine %d op %d", pi, gi, oi))
+					}
+					watchMu.Lock()
+					watch = append(watch, local...)
+					watchMu.Unlock()
+				}(gi)
+			}
+			close(start)
+			wg.Wait()
+		}
+		rep.Results = append(rep.Results, res)
+	}
+	if p.Solo {
+		for pi := range p.Phases {
+			res := make([][]obs, len(p.Phases[pi].Goroutines))
+			for gi := range p.Phases[pi].Goroutines {
+				res[gi] = make([]obs, len(p.Phases[pi].Goroutines[gi]))
+				for oi := range p.Phases[pi].Goroutines[gi] {
+					res[gi][oi] = execOp(&p.Phases[pi].Goroutines[gi][oi], &watch, fmt.Sprintf("solo phase %d goroutine %d op %d", pi, gi, oi))
+				}
+			}
+			rep.Solo = append(rep.Solo, res)
+		}
+	}
+	for _, w := range watch {
+		if !bytes.Equal(w.live, w.snap) {
+			rep.LaterMutated = append(rep.LaterMutated, w.name)
+		}
+	}
+	if p.Probe {
+		tee := &teeReader{}
+		prev := bip39.VerifSwapRandSource(tee)
+		rep.PrevIsDefault = prev == rand.Reader
+		rep.PrevType = fmt.Sprintf("%T", prev)
+		tee.r = prev
+		if prev == nil {
+			tee.r = bytes.NewReader(nil)
+		}
+		for i := range p.TeeNew {
+			tee.buf.Reset()
+			o := execOp(&p.TeeNew[i], nil, "tee")
+			o.TeeBytes = append([]byte(nil), tee.buf.Bytes()...)
+			rep.Tee = append(rep.Tee, o)
+		}
+		bip39.VerifSwapRandSource(prev)
+	}
+	out, err := json.Marshal(&rep)
+	if err != nil {
+		fmt.Fprintln(os.Stderr, "verif child:", err)
+		return 3
+	}
+	if err := os.WriteFile(planPath+".out", out, 0o644); err != nil {
+		fmt.Fprintln(os.Stderr, "verif child:", err)
+		return 3
+	}
+	return 0
+}
+
+// ---- parent side ---------------------------------------------------------------
+
+type childRun struct {
+	Report  *report
+	Exit    int
+	Stderr  string
+	RaceLog string
+	Crashed bool // died with a Go runtime panic / fatal error
+}
+
+var childSeq struct {
+	sync.Mutex
+	n int
+}
+
+// spawnChild executes the plan in a newly started process (the race build when race is set).
+func spawnChild(p *plan, race bool) *childRun {
+	bin := os.Getenv("VERIF_SELF")
+	if race {
+		bin = os.Getenv("VERIF_SELF_RACE")
+	}
+	if bin == "" {
+		harnessError("child binary not configured (VERIF_SELF / VERIF_SELF_RACE)")
+	}
+	work := os.Getenv("VERIF_WORK")
+	if work == "" {
+		work = os.TempDir()
+	}
+	childSeq.Lock()
+	childSeq.n++
+	id := childSeq.n
+	childSeq.Unlock()
+	planPath := filepath.Join(work, fmt.Sprintf("plan-%d-%d.json", os.Getpid(), id))
+	b, err := json.Marshal(p)
+	if err != nil {
+		harnessError("cannot encode plan: %v", err)
+	}
+	if err := os.WriteFile(planPath, b, 0o644); err != nil {
+		harnessError("cannot write plan: %v", err)
+	}
+	defer os.Remove(planPath)
+	defer os.Remove(planPath + ".out")
+	raceLog := planPath + ".race"
+	cmd := exec.Command(bin)
+	cmd.Env = append(os.Environ(), "VERIF_PLAN="+planPath, "VERIF_STATS=", "VERIF_FAILCASE=",
+		"GORACE=halt_on_error=0 exitcode=66 atexit_sleep_ms=0 log_path="+raceLog)
+	var stderr bytes.Buffer
+	cmd.Stderr = &stderr
+	cmd.Stdout = &stderr
+	done := make(chan error, 1)
+	if err := cmd.Start(); err != nil {
+		harnessError("cannot start child: %v", err)
+	}
+	go func() { done <- cmd.Wait() }()
+	run := &childRun{}
+	select {
+	case err = <-done:
+	case <-time.After(120 * time.Second):
+		cmd.Process.Kill()
+		<-done
+		run.Exit = -2
+		run.Stderr = "child did not finish within 120 s\n" + stderr.String()
+		return run
+	}
+	run.Stderr = stderr.String()
+	if err != nil {
+		var ee *exec.ExitError
+		if errors.As(err, &ee) {
+			run.Exit = ee.ExitCode()
+		} else {
+			run.Exit = -1
+		}
+	}
+	if matches, _ := filepath.Glob(raceLog + "*"); len(matches) > 0 {
+		for _, m := range matches {
+			if lb, err := os.ReadFile(m); err == nil {
+				run.RaceLog += string(lb)
+			}
+			os.Remove(m)
+		}
+	}
+	if strings.Contains(run.Stderr, "fatal error:") || strings.Contains(run.Stderr, "panic:") || strings.Contains(run.Stderr, "unexpected signal") {
+		run.Crashed = true
+	}
+	if ob, err := os.ReadFile(planPath + ".out"); err == nil {
+		var rep report
+		if json.Unmarshal(ob, &rep) == nil {
+			run.Report = &rep
+		}
+	}
+	return run
+}
